@@ -151,7 +151,10 @@ func TestVerifC19Math(t *testing.T) {
 type c19FwdCase struct {
 	Own   int   `json:"own"`   // index into c19Levels for the node's own predictability for the destination (-1: unknown)
 	Peers []int `json:"peers"` // per peer: index into c19Levels of its advertised value (-1: the peer advertised nothing, -2: advertised a vector without the destination)
-	Local bool  `json:"local"`
+	// Earlier[i] lists the vectors peer i had sent BEFORE the one described by Peers[i] (same coding,
+	// -1 entries are skipped): a peer's latest vector is what it advertises
+	Earlier [][]int `json:"earlier,omitempty"`
+	Local   bool    `json:"local"`
 }
 
 var c19Levels = []float64{0, math.SmallestNonzeroFloat64, 0.25, 0.5, 0.5000000000000001, 0.75, 1 - 1.0/(1<<53), 1}
@@ -162,16 +165,40 @@ func c19FwdBody(c *vk.Ctx, cs c19FwdCase) {
 	p := s.core.routing.(*Prophet)
 	dest := bpv7.MustNewEndpointID("dtn://faraway/inbox")
 	var names []string
+	var model []int // per peer: level index of the value it advertises for the destination (-1 / -2: none)
 	for i, lv := range cs.Peers {
 		n := fmt.Sprintf("p%d", i)
 		names = append(names, n)
 		s.addPeer(n)
-		switch {
-		case lv >= 0:
-			s.receive(vfProphetMetadata("dtn://"+n+"/", vfNodeName, map[string]float64{"dtn://faraway/inbox": c19Levels[lv], "dtn://other/": 0.3}, uint64(100+i)))
-		case lv == -2:
-			s.receive(vfProphetMetadata("dtn://"+n+"/", vfNodeName, map[string]float64{"dtn://other/": 0.3}, uint64(100+i)))
+		seq := uint64(100 + 10*i)
+		send := func(lv int) {
+			seq++
+			switch {
+			case lv >= 0:
+				s.receive(vfProphetMetadata("dtn://"+n+"/", vfNodeName, map[string]float64{"dtn://faraway/inbox": c19Levels[lv], "dtn://other/": 0.3}, seq))
+			case lv == -2:
+				s.receive(vfProphetMetadata("dtn://"+n+"/", vfNodeName, map[string]float64{"dtn://other/": 0.3}, seq))
+			}
 		}
+		if i < len(cs.Earlier) {
+			for _, e := range cs.Earlier[i] {
+				send(e)
+			}
+			if len(cs.Earlier[i]) > 0 && lv != -1 {
+				c.Class("a peer sent several vectors")
+			}
+		}
+		send(lv)
+		// what the peer advertises now: its latest vector (an earlier one stays in force only if none followed)
+		last := lv
+		if lv == -1 && i < len(cs.Earlier) {
+			for _, e := range cs.Earlier[i] {
+				if e != -1 {
+					last = e
+				}
+			}
+		}
+		model = append(model, last)
 	}
 	// the node's own value for the destination is set last (receiving vectors has moved it)
 	p.dataMutex.Lock()
@@ -181,19 +208,17 @@ func c19FwdBody(c *vk.Ctx, cs c19FwdCase) {
 		delete(p.predictabilities, dest)
 	}
 	p.dataMutex.Unlock()
-	// observed values (never a recomputation)
+	// the node's own value as observed (never a recomputation); the peers' values as they advertised them
 	p.dataMutex.RLock()
 	own := p.predictabilities[dest]
+	p.dataMutex.RUnlock()
 	adv := map[string]float64{}
 	known := map[string]bool{}
-	for _, n := range names {
-		if m, ok := p.peerPredictabilities[bpv7.MustNewEndpointID("dtn://"+n+"/")]; ok {
-			if v, ok := m[dest]; ok {
-				adv[n], known[n] = v, true
-			}
+	for i, n := range names {
+		if model[i] >= 0 {
+			adv[n], known[n] = c19Levels[model[i]], true
 		}
 	}
-	p.dataMutex.RUnlock()
 	src := "dtn://remote/app"
 	if cs.Local {
 		src = vfNodeName + "app"
@@ -235,7 +260,7 @@ func c19FwdBody(c *vk.Ctx, cs c19FwdCase) {
 
 func TestVerifC19Forwarding(t *testing.T) {
 	u := vk.Unit{Property: "C19", Name: "c19.forwarding", Quick: 250, Thorough: 8000,
-		Rule: "1..4 connected peers, each having advertised (through a real metadata bundle) a predictability for the bundle's destination from {0, denormal, 0.25, 0.5, 0.5+ulp, 0.75, 1-2^-53, 1}, or no vector, or a vector without the destination; the node's own value from the same set or unknown; a data bundle (received or locally submitted) for a destination that is not connected; oracle: a peer's log contains the bundle iff advertised(peer, destination) > own(destination), using the values observed in the node at that moment; non-trivial = some peer ties with the node; distinct by case hash"}
+		Rule: "1..4 connected peers, each having advertised (through a real metadata bundle) a predictability for the bundle's destination from {0, denormal, 0.25, 0.5, 0.5+ulp, 0.75, 1-2^-53, 1}, or no vector, or a vector without the destination, optionally preceded by 1..2 earlier vectors of the same peer (the latest vector is what a peer advertises); the node's own value from the same set or unknown; a data bundle (received or locally submitted) for a destination that is not connected; oracle: a peer's log contains the bundle iff advertised(peer, destination) > own(destination), using the node's own value observed at that moment and the peers' values as they advertised them; non-trivial = some peer ties with the node; distinct by case hash"}
 	vk.Check(t, u, func(t *rapid.T) c19FwdCase {
 		own := rapid.IntRange(-1, len(c19Levels)-1).Draw(t, "own")
 		n := rapid.IntRange(1, 4).Draw(t, "n")
@@ -246,6 +271,11 @@ func TestVerifC19Forwarding(t *testing.T) {
 				lv = own
 			}
 			cs.Peers = append(cs.Peers, lv)
+			var earlier []int
+			if rapid.IntRange(0, 2).Draw(t, "multi") == 0 {
+				earlier = rapid.SliceOfN(rapid.IntRange(-2, len(c19Levels)-1), 1, 2).Draw(t, "earlier")
+			}
+			cs.Earlier = append(cs.Earlier, earlier)
 		}
 		return cs
 	}, c19FwdBody)
